@@ -88,6 +88,9 @@ pub fn run(
     loop {
         poll.poll(&mut events, Some(poll_timeout)).context("poll")?;
 
+        #[cfg(feature = "verif")]
+        aquatic_common::verif_fault!("udp.socket.loop");
+
         for event in events.iter() {
             if event.is_readable() {
                 match event.token() {
